@@ -70,7 +70,7 @@ Proof. exact (fun A l i H R => conj (list_slice_from_value l i H R) (list_slice_
 Print Assumptions C06_one_sided_slices_value.
 
 Theorem C06_text_index_domain :
-  forall cap cps i, (cps <> [] -> Z.of_nat (length cps) + 1 <= cap) -> (cps = [] -> cap = 0) ->
+  forall cap cps i, (cps <> [] -> Z.of_nat (length cps) + 1 <= cap) -> (cps = [] -> 0 <= cap <= 1) ->
     ((exists c, text_index cap cps i = Some c) <-> 1 <= i <= Z.of_nat (length cps)).
 Proof. exact text_index_domain. Qed.
 Print Assumptions C06_text_index_domain.
@@ -81,7 +81,7 @@ Proof. exact text_index_value. Qed.
 Print Assumptions C06_text_index_value.
 
 Theorem C06_text_replace_domain :
-  forall cap cps i c, (cps <> [] -> Z.of_nat (length cps) + 1 <= cap) -> (cps = [] -> cap = 0) ->
+  forall cap cps i c, (cps <> [] -> Z.of_nat (length cps) + 1 <= cap) -> (cps = [] -> 0 <= cap <= 1) ->
     ((exists r, text_replace cap cps i c = Some r) <-> 1 <= i <= Z.of_nat (length cps)).
 Proof. exact text_replace_domain. Qed.
 Print Assumptions C06_text_replace_domain.
